@@ -243,6 +243,27 @@ def check_diff_decl(d):
     return "unchecked", "%s ('from %s to %s') is computed from the positions of %s and %s: different point names, not judged" % (n, X, Y, a[1], b[1])
 
 
+def check_alias_decl(d):
+    """declared rotation/transform `R_AB = <expression that is itself a named rotation/transform>` (no product): the name given must carry the frames of what it is
+    bound to -- `const Rotation& R_GB = X_GP.R()` names the parent's rotation as the body's"""
+    n = d.get("var") or ""
+    m = RX2.match(n)
+    init = d.get("init")
+    if not m or init is None or not is_rot_type(d.get("ty", "")):
+        return "skip", ""
+    if isinstance(init, list) and init and init[0] == "opc" and init[1] == "*":
+        return "skip", ""          # products are judged by check_decl
+    got = rot_monogram(init)
+    if not got:
+        return "skip", ""
+    want = (m.group(2), m.group(3))
+    if got == want:
+        return "ok", "%s = %s" % (n, sx_str(init)[:50])
+    if tuple(re.sub(r"0$", "", x) for x in got) == tuple(re.sub(r"0$", "", x) for x in want):
+        return "unchecked", "%s vs (%s<-%s): the 0-suffixed frames are the mobilizer's as-defined F and M (equal to F, M unless reversed)" % (n, got[0], got[1])
+    return "bad", "%s is named (%s<-%s) but is bound to %s, which is (%s<-%s)" % (n, want[0], want[1], sx_str(init)[:40], got[0], got[1])
+
+
 def check_assign(e):
     """`X_AD = product` assignments to named rotations/transforms (locals or members)"""
     x = e["x"]
@@ -288,3 +309,6 @@ def scan(P, file_pred):
                 st, det = check_diff_decl(e)
                 if st != "skip":
                     yield fn, e, "diffdecl", st, det
+                st, det = check_alias_decl(e)
+                if st != "skip":
+                    yield fn, e, "aliasdecl", st, det
